@@ -266,9 +266,31 @@ static void h_freecb(void *p)
 	if (ok) { t->magic = 0xdead; tokens_out--; free(t); }
 }
 
+/* nestmode: a function callback that itself parses a text (with a function call of its own) into another context
+ * before it looks at its arguments - the library is re-entered while the outer call's argument vector is live */
+static int nestmode;
+static cfg_t *nest_ctx;
+static int h_func_inner(cfg_t *cfg, cfg_opt_t *opt, int argc, const char **argv)
+{
+	(void)cfg; (void)opt; (void)argv;
+	fprintf(LOG, "{\"ev\":\"inner\",\"argc\":%d}\n", argc);
+	return 0;
+}
+static void nested_parse(void)
+{
+	static cfg_opt_t nopts[] = { CFG_FUNC("inner", h_func_inner), CFG_INT("n", 0, CFGF_NONE), CFG_END() };
+	int rc;
+	if (!nest_ctx) nest_ctx = cfg_init(nopts, CFGF_NONE);
+	if (!nest_ctx) return;
+	rc = cfg_parse_buf(nest_ctx, "n = 1\ninner(p, q, r, s, t, u, v, w, x, y, z)\nn = 2\n");
+	fprintf(LOG, "{\"ev\":\"nested\",\"rc\":%d,\"n\":%ld}\n", rc, cfg_getint(nest_ctx, "n"));
+}
+
 static int h_func(cfg_t *cfg, cfg_opt_t *opt, int argc, const char **argv)
 {
-	int fail = cb_should_fail(), i;
+	int fail, i;
+	if (nestmode) nested_parse();
+	fail = cb_should_fail();
 	fprintf(LOG, "{\"ev\":\"cb\",\"k\":\"func\",\"n\":%ld,\"opt\":", cbcount);
 	jhex(opt->name);
 	fprintf(LOG, ",\"fail\":%d,\"args\":[", fail);
@@ -638,6 +660,8 @@ static void case_cleanup(void)
 	for (i = 0; i < MAXCTX; i++) {
 		if (ctx[i]) { cfg_free(ctx[i]); ctx[i] = NULL; }
 	}
+	if (nest_ctx) { cfg_free(nest_ctx); nest_ctx = NULL; }
+	nestmode = 0;
 	for (i = MAXSCHEMA - 1; i >= 0; i--) schema_release(&schemas[i], 0);
 	for (i = 0; i < MAXSCHEMA; i++) { schemas[i].used = 0; schemas[i].poisoned = 0; schemas[i].nopts = 0; }
 	cur_schema = NULL;
@@ -1183,6 +1207,7 @@ static void run_op(char **t, int nt)
 	/* ---- callbacks / filters */
 	if (!strcmp(op, "failat")) { NEED(2); failat = atol(t[1]); cbcount = 0; return; }
 	if (!strcmp(op, "v2mode")) { NEED(2); v2mode = atoi(t[1]); return; }
+	if (!strcmp(op, "nestmode")) { NEED(2); nestmode = atoi(t[1]); return; }
 	if (!strcmp(op, "set_print_func")) {
 		char *name;
 		NEED(4); LOC(1);
